@@ -376,13 +376,22 @@ def substances_used(ctx):
                     fact = f"adds {show(a, 20)}; the same operand is passed to the operation: {passed}"
             why = 'the solvent added by the step is not recorded: its usage is not counted'
         elif op == 'remove':
-            if len(stores) == 1:
-                v = strip_refs(stores[0][3])
-                at = atoms_of(v)
-                ok = isinstance(v, ast.Call) and 'difference' in unparse(v.func) and \
-                    {'step.to[0]', 'step.to[1]'} <= {a for a in at} | {n.name for n in deep_walk(v) if isinstance(n, Ref)}
-                fact = show(stores[0][3], 80)
-            why = 'the recorded set must be what vanished: pre-state minus post-state'
+            # everything recorded must derive from both the state before and the state after the step
+            vals = [st[3] for st in stores if not (isinstance(strip_refs(st[3]), ast.Call) and not strip_refs(st[3]).args and
+                                                   getattr(strip_refs(st[3]).func, 'id', '') == 'set')]
+            vals += [c.args[0] for c, s_, b in adds if c.args]
+            ok = bool(vals)
+            descr = []
+            for v in vals:
+                srcs = data_sources(v)
+                keys = {getattr(n, 'pkey', None) for n in srcs} | {n.name for n in srcs if isinstance(n, Ref)}
+                pre = any(k and k.startswith('step.to[0]') for k in keys)
+                post = any(k and (k.startswith('step.to[1]') or k.startswith('self.results[')) for k in keys)
+                descr.append(f"{show(v, 40)} <- pre: {pre}, post: {post}")
+                if not (pre and post):
+                    ok = False
+            fact = '; '.join(descr[:2])
+            why = 'the recorded set must be what vanished: derived from the state before and after the removal'
         else:
             continue
         ctx.ob('C09.R5', bake, (stores[0][0].lineno if stores else adds[0][1].lineno if adds else node.lineno),
